@@ -243,6 +243,7 @@ class Tok:
 
     def __init__(self, s):
         self.items = []
+        s = sb.resolve_cuts(s, sb.CURRENT_WORLD[0])
         for seg in s.segs:
             if isinstance(seg, bytes):
                 self.items.extend(seg)
